@@ -47,6 +47,9 @@ type connScn struct {
 	// EarlyClose: the closers have the connection from OnPrepare (the first moment user code sees it)
 	// and may close it from their own goroutines from then on, i.e. also while netpoll registers it.
 	EarlyClose bool   `json:"early_close,omitempty"`
+	// RealAccept: the connection is created by the real server.onAccept (on a bare server value) instead of the
+	// harness's mirror of it, so that a change to the accept path itself is executed
+	RealAccept bool `json:"real_accept,omitempty"`
 	Detach     bool   `json:"detach,omitempty"`
 	// Sweeper: a goroutine doing what server.Close (Shutdown) does to every tracked connection: up to
 	// Sweeper passes of "if conn.isIdle() { conn.Close() }"
@@ -66,7 +69,7 @@ func genConnScn(t *rapid.T, prop string, excl map[string]bool) connScn {
 		s.Request = s.LateSetReq
 	} else {
 		s.Prepare = rapid.IntRange(0, 2).Draw(t, "prepare") == 0
-		if s.Prepare && prop == "C09" {
+		if s.Prepare && (prop == "C09" || prop == "C05") {
 			s.PrepareClose = rapid.IntRange(0, 9).Draw(t, "prepareClose") == 0
 		}
 		s.Connect = rapid.IntRange(0, 2).Draw(t, "connect") > 0
@@ -117,6 +120,9 @@ func genConnScn(t *rapid.T, prop string, excl map[string]bool) connScn {
 		}
 		if !s.Client && (s.Closers > 0 || s.Detach) {
 			s.EarlyClose = rapid.IntRange(0, 2).Draw(t, "earlyClose") == 0
+		}
+		if !s.Client {
+			s.RealAccept = rapid.Bool().Draw(t, "realAccept")
 		}
 	} else if prop == "C09" {
 		s.Closers = rapid.SampledFrom([]int{0, 0, 0, 1}).Draw(t, "closers")
@@ -301,6 +307,10 @@ func runConn(t *rapid.T, s connScn, replay []vs.Step) *connOutcome {
 		// user close callbacks are registered in OnPrepare, i.e. before the connection can receive events
 		userPrepare := opts.onPrepare
 		opts.onPrepare = func(conn Connection) context.Context {
+			if s.RealAccept {
+				c = conn.(*connection) // allocated by server.onAccept; nothing has used c before this moment
+				o.c = c
+			}
 			addCallbacks()
 			defer func() { prepared = true }()
 			if userPrepare != nil {
@@ -318,6 +328,13 @@ func runConn(t *rapid.T, s connScn, replay []vs.Step) *connOutcome {
 			}
 		}()
 		var err error
+		if s.RealAccept && !s.Client {
+			srv := &server{opts: opts}
+			srv.onAccept(&netFD{fd: r, network: "unix", remoteAddr: &UnixAddr{}, localAddr: &UnixAddr{}})
+			accepted = true
+			w.ev("registered")
+			return
+		}
 		if s.Client {
 			err = c.init(&netFD{fd: r, network: "unix", remoteAddr: &UnixAddr{}, localAddr: &UnixAddr{}}, nil)
 		} else {
